@@ -217,7 +217,9 @@ pub fn check_code(code: &[u8], permissive: bool, hostile_positions: bool, acc: &
         if w[0].index == w[1].index {
             multi = true;
         }
-        if (w[0].index, w[0].offset) > (w[1].index, w[1].offset) {
+        // compared as 256-bit numbers by the harness' own arithmetic, not through the subject's `Ord`
+        let (ia, ib) = (subj::from_u256(w[0].index.0), subj::from_u256(w[1].index.0));
+        if ib.ult(ia) || (ia == ib && w[0].offset > w[1].offset) {
             return CaseResult::Fail(Violation::new(
                 "layout entries are not ordered by (slot, offset)",
                 format!("{:?} before {:?}", (w[0].index, w[0].offset), (w[1].index, w[1].offset)),
@@ -260,6 +262,47 @@ pub fn check_code(code: &[u8], permissive: bool, hostile_positions: bool, acc: &
     CaseResult::Pass
 }
 
+/// several plain slots whose indices order differently as whole words, by their low half, by their low
+/// 64 bits or by their top byte
+fn g_many_slots(ch: &mut Chooser) -> B {
+    let pool: Vec<W> = vec![
+        W::from_u64(1),
+        W::from_u64(2),
+        W::from_u64(u64::MAX),
+        W::pow2(64),
+        W::pow2(64).add(W::ONE),
+        W::pow2(128),
+        W::pow2(128).add(W::ONE),
+        W::pow2(128).add(W::pow2(64)),
+        W::pow2(192).add(W::from_u64(3)),
+        W::pow2(248).sub(W::ONE),
+        W::pow2(248),
+        W::pow2(255),
+        W::pow2(255).add(W::ONE),
+        W::MAX,
+        W::from_hex("0x360894a13ba1a3210667c828492db98dca3e2076cc3735a920a3ca505d382bbc").unwrap(),
+        W::from_hex("0xb53127684a568b3173ae13b9f8a6016e243e63b6e8ee1178d6a717850b5d6103").unwrap(),
+        W::from_hex("0xa3f0ad74e5423aebfd80d3ef4346578335a9a72aeaee59ff6cb3582b35133d50").unwrap(),
+    ];
+    let mut b = B::new();
+    let n = ch.range(2, 7);
+    for _ in 0..n {
+        let slot = if ch.chance(1, 6) { ch.random_word() } else { *ch.pick(&pool) };
+        if ch.chance(1, 2) {
+            b.push(W::from_u64(4));
+            b.emit(asm::CALLDATALOAD);
+            b.push(slot);
+            b.emit(asm::SSTORE);
+        } else {
+            b.push(slot);
+            b.emit(asm::SLOAD);
+            b.emit(asm::POP);
+        }
+    }
+    b.emit(asm::STOP);
+    b
+}
+
 /// sign extensions with constant operands around the word size, stored to constant slots: the width a
 /// rule derives from such a constant must not describe more than the slot
 fn g_signextend(ch: &mut Chooser) -> B {
@@ -293,6 +336,7 @@ fn run_shard(ctx: &ShardCtx, acc: &mut Acc) {
     drive(ctx, "layouts", tier.pick(20_000, 250_000), 900, acc, &|ch, acc| {
         let permissive = ch.chance(1, 3);
         let (name, code, hostile): (&str, Vec<u8>, bool) = match ch.below(10) {
+            6 if ch.chance(1, 2) => ("many-slots", g_many_slots(ch).code(), true),
             0..=2 => ("packed-edge", g_packed_edge(ch).code(), true),
             3..=5 => ("hostile-idiom", g_hostile_idiom(ch).code(), true),
             6 | 7 => {
